@@ -1,10 +1,12 @@
 import CvDriver.Base
+import CvModel.Objects
 namespace Drv
 open Cv Cv.Script
 
 structure ScriptSt where
   cvs : List String := []
   biases : List String := []
+  objs : Cv.Objects.Objs := { vars := [], biases := [], refs := fun _ => [] }
 
 def unescTok (s : String) : String :=
   let rec go : List Char → List Char
@@ -26,15 +28,33 @@ def clsOf : Outcome → String
   | .tooMany => "stoomany"
   | .run _ _ _ => "srun"
 
+def objsOut (ln : Nat) (o : Cv.Objects.Objs) : String :=
+  out ln "objs" (sTok (",".intercalate o.vars ++ "|" ++ ",".intercalate (o.biases.map (·.1))))
+
 def c20 (st : ScriptSt) (ln : Nat) (t : List String) : Option (ScriptSt × List String) :=
   match t with
   | "S.names" :: r =>
     let get (k : String) : List String :=
       ((r.find? (fun x => x.startsWith (k ++ "="))).map fun x => ((x.drop (k.length + 1)).toString.splitOn ",").filter (· ≠ "")).getD []
-    some ({ cvs := get "cvs", biases := get "biases" }, [])
+    some ({ st with cvs := get "cvs", biases := get "biases" }, [])
   | "m.script" :: args =>
     let o := dispatch Gen.commands st.cvs st.biases (args.map unescTok)
     some (st, [out ln "cls" (clsOf o)])
+  | "O.objs" :: r =>
+    -- the object graph as configured: `cvs=a,b,c deps=h:a+b,k:c`
+    let get (k : String) : List String :=
+      ((r.find? (fun x => x.startsWith (k ++ "="))).map fun x => ((x.drop (k.length + 1)).toString.splitOn ",").filter (· ≠ "")).getD []
+    let bs : List (String × List String) := (get "deps").map fun d =>
+      match d.splitOn ":" with
+      | [b, vs] => (b, (vs.splitOn "+").filter (· ≠ ""))
+      | _ => (d, [])
+    some ({ st with objs := Cv.Objects.ofConfig (get "cvs") bs }, [])
+  | ["o.delvar", v] =>
+    let o := if st.objs.vars.contains v then Cv.Objects.deleteVar st.objs v else st.objs
+    some ({ st with objs := o }, [objsOut ln o])
+  | ["o.delbias", b] =>
+    let o := Cv.Objects.deleteBias st.objs b
+    some ({ st with objs := o }, [objsOut ln o])
   | ["s.table"] =>
     some (st, [out ln "ncmd" (iTok Gen.commands.length),
                out ln "table" (" ".intercalate (Gen.commands.map fun c => sTok (c.1 ++ ":" ++ toString c.2.1 ++ ":" ++ toString c.2.2)))])
